@@ -51,8 +51,11 @@ type Cfg struct {
 	Corrupt string `json:"corrupt"`
 	// ForceInterval: storage_force_snapshot_interval is enabled; "the interval elapses" is an environment answer (once)
 	ForceInterval bool `json:"force_interval"`
-	RetryCount    int  `json:"retry_count"` // storage_retry_count (default 3); with StoreFaults >= RetryCount a whole upload can fail
-	TwoRemotes    bool `json:"two_remotes"` // two remote instances with disjoint keys; both snapshots may wait in the receiver at once
+	// QuietPeriod: forced snapshots are disabled (interval 0); "a very long time passes" is an environment answer (once):
+	// nothing may be uploaded because of it
+	QuietPeriod bool `json:"quiet_period"`
+	RetryCount  int  `json:"retry_count"` // storage_retry_count (default 3); with StoreFaults >= RetryCount a whole upload can fail
+	TwoRemotes  bool `json:"two_remotes"` // two remote instances with disjoint keys; both snapshots may wait in the receiver at once
 }
 
 var LoopHooks = []string{"sync.loopTop", "sync.beforeLoad", "load.beforeTxn", "load.afterTxn", "sync.afterLoad", "sync.beforeInfo", "sync.beforeSend", "send.beforeTxn", "send.afterTxn", "send.beforeStore", "send.afterStore", "sync.afterSendCheck", "sync.afterStartupCapture"}
@@ -87,6 +90,7 @@ type World struct {
 	noopShown         bool
 	overdue           bool // the forced-snapshot interval elapses before the loop's next deadline check
 	forced            int
+	quietUsed         bool
 	txnBeforeLoad     int64
 	appTxns           []int64 // ids of the application's committed transactions
 	lastUploadTxn     int64
@@ -1032,6 +1036,17 @@ func (w *World) policy(appPoints map[string]bool) sched.Policy {
 					w.bucketVer++
 					w.idle = 0
 					w.mu.Unlock()
+				}}})
+			}
+			if cfg.QuietPeriod && !cfg.ForceInterval && !w.quietUsed {
+				lp := loop
+				out = append(out, sched.Choice{Label: "a-very-long-time-passes", Cost: 1, Act: &sched.Action{Do: func() {
+					w.mu.Lock()
+					w.quietUsed = true
+					w.overdue = true // the loop's deadline base moves 1000 h into the past; with the interval disabled that means nothing
+					w.idle = 0
+					w.mu.Unlock()
+					s.Release(lp, 0)
 				}}})
 			}
 			if cfg.ForceInterval && w.forced == 0 {
